@@ -187,3 +187,79 @@ def rule_c19_raises(ctx):
             witness=[f"{fr[0]} @ {fr[1]}: {fr[2]}" for fr in w],
         ))
     return r
+
+
+# ------------------------------------------------------------------------------------------
+# R-KIND: a part applied to the wrong kind of container never filters it
+# ------------------------------------------------------------------------------------------
+def rule_kind(ctx):
+    from ..aval import AVal, json_node
+    from ..contexts import run_jobs
+    from .purity import newinit_guarded_set
+    prog = ctx.prog
+    r = RuleResult("R-KIND", floor=4)
+
+    def rec(is_list):
+        return mk("inst:data.Data", org=frozenset({("data", 0)}), taint=1, fields=(
+            ("_is_list", const(is_list)),
+            ("_keys", mk("tuple", elem=AVal(types=frozenset({"json"}), org=frozenset({("data", 1)}), taint=2, hk=True), nonempty=True)),
+            ("_values", mk("tuple", elem=json_node("data", 1), nonempty=True))))
+    raw_list = AVal(types=frozenset({"list"}), org=frozenset({("data", 0)}), taint=2, nonempty=True, elem=json_node("data", 1))
+    raw_dict = AVal(types=frozenset({"dict"}), org=frozenset({("data", 0)}), taint=2, nonempty=True, elem=json_node("data", 1), key=AVal(types=frozenset({"json"}), org=frozenset({("data", 1)}), taint=2, hk=True))
+    cfg = {"newinit_guarded": newinit_guarded_set(prog)}
+    cases = [
+        ("map part on a raw list", "datapath.MapValue.filter", "datapath.MapValue", raw_list),
+        ("map part on a wrapped list", "datapath.MapValue.filter", "datapath.MapValue", rec(True)),
+        ("list part on a raw mapping", "datapath.ListValue.filter", "datapath.ListValue", raw_dict),
+        ("list part on a wrapped mapping", "datapath.ListValue.filter", "datapath.ListValue", rec(False)),
+    ]
+    jobs = [(lab, q, {"self": obj(cq, "part"), "data": d}, cfg, None, None) for lab, q, cq, d in cases]
+    res = run_jobs(prog, jobs)
+    for lab, q, cq, d in cases:
+        m = res[lab]
+        ret = m.rets[0] if m.rets else None
+        raised = sorted({k[0] for k, v in m.raises.items()})
+        inst = {"case": lab, "returns": ret.short()[:60] if ret is not None and not ret.is_bottom else "never returns", "raises": raised}
+        r.instances.append(inst)
+        if ret is not None and ret.is_bottom and "TypeError" in raised:
+            r.ok()
+        else:
+            f = prog.func(q)
+            r.fail(Finding("R-KIND", f"R-KIND|{q}|{lab}", f"{f.file}:{f.node.lineno}",
+                           f"{q}: a {lab} must raise TypeError (which path resolution turns into 'matches nothing'); the analysis finds a path on which it is filtered instead "
+                           f"(returns {inst['returns']}, may raise {raised})", []))
+    return r
+
+
+def rule_report_raises(ctx):
+    """The failure reports and summaries of a validation result raise nothing because of what
+    the document contains (C06: 'the textual failure report is always a string')."""
+    from ..contexts import run_jobs
+    from ..hints import build_hints
+    from ..interp import Interp
+    prog = ctx.prog
+    r = RuleResult("R-RAISE/C06", floor=3)
+    base = build_hints(prog)
+    seen = set()
+    for label, override in CONCRETE_SPLIT:
+        h = dict(base)
+        h.update(override)
+        it = Interp(prog, h, {"deepcopy_root": "PRIV"})
+        s = it.run(prog.func("schema.Schema.validate"), {"self": obj("schema.Schema", "schema"), "data": doc_root("data")})
+        result = s.ret
+        for meth in ("get_failures_string", "is_valid", "num_failures", "num_rules_tested"):
+            fn = prog.cls("schema.ValidatedData").lookup_method(meth)
+            it2 = Interp(prog, h, {})
+            s2 = it2.run(fn, {"self": result})
+            for (exc, ofunc, otext), (w, t) in s2.raises.items():
+                inst_key = (meth, exc, ofunc, otext)
+                if not t or inst_key in seen:
+                    continue
+                seen.add(inst_key)
+                r.instances.append({"report": meth, "may raise": exc, "site": f"{ofunc}: {otext}"})
+                r.fail(Finding("R-RAISE/C06", f"R-RAISE|{exc}|{ofunc}|{otext}", w[-1][1],
+                               f"ValidatedData.{meth} can raise {exc} ({w[-1][3]}) at `{otext}` in {ofunc} because of what the document contains", [f"{fr[0]} @ {fr[1]}: {fr[2]}" for fr in w]))
+            r.instances.append({"report": f"{meth} ({label})", "tainted operations escaping": len([1 for k, v in s2.raises.items() if v[1]])})
+            if not any(v[1] for v in s2.raises.values()):
+                r.ok()
+    return r
